@@ -8,24 +8,35 @@ PID = "C03"
 IMPORTS = "From OV Require Import Model.Vector Model.Matrix Model.MatOps Model.MatNorms."
 MODEL_VO = ["Model/MatOps.vo", "Model/MatNorms.vo"]
 EXHAUSTIVE = False
-RULE = ("mat.hist cases: (a) products r x k * k x c for every shape 0<=r,k,c<=B (B=5 quick, 8 thorough; exhaustive in shape, "
-        "sampled rational values), (b) every operation on every shape <=4x4 with every index argument 0..dim+1 "
-        "(out-of-range included), (c) seeded random histories of up to 40 operations; distinct = distinct executor line; "
-        "non-trivial = non-empty matrix or an operation that must panic")
+RULE = ("kinds mat.histeq (exact tier) / mat.hist (float tiers) / mat.norms / mat.norm_p: (a) products r x k * k x c for every shape "
+        "0<=r,k,c<=B (B=5 quick, 8 thorough; exhaustive in shape, sampled rational values), (b) every operation on every shape <=3x3 "
+        "(<=4x4 thorough) with every index argument 0..dim+1 (out-of-range included), (p) every ordered pair of 24 editing operations "
+        "(in-range arguments) on 1x1, 2x2, 3x2, 2x3, each as its own two-step history (+3000 sampled triples, thorough), (n) the four "
+        "f64 norms on every shape 0..B x 0..B and norm_p for p in {1,1.5,2,3,4}, (c) seeded random histories of up to 40 operations "
+        "(rat, f64, Complex); in the exact tier every state dump is followed by the derived PartialEq of the matrix against a freshly "
+        "built one; distinct = distinct executor line; non-trivial = non-empty matrix or an operation that must panic")
 TRUSTED = ["Coq 8.16.1 kernel + vm_compute", "Rust executor /verif/harness (Rat = i128 rationals)", "python driver: generators, list-of-rows reference model, stream comparators",
-           "hand-written Gallina model coq/Model/Matrix.v tied to src/matrix/*.rs by differential execution (Rat vs Qc exact; f64 vs primitive floats)"]
-ASSUMPTIONS = ["Rust semantics of Vec/usize as modelled (checked indexing, debug overflow checks)", "the sampled cases are where model and code were compared; the theorems are about the model"]
-UNPROVED = ["norms over f64 (norm_1/inf/p/max) are tied by the float tier and the oracle, not by a theorem over R",
+           "hand-written Gallina model coq/Model/{Matrix,MatOps,MatNorms}.v tied to src/matrix/*.rs by differential execution (Rat vs Qc exact; f64/Complex vs primitive floats)"]
+ASSUMPTIONS = ["Rust semantics of Vec/usize as modelled (checked indexing, debug overflow checks)", "the sampled cases are where model and code were compared; the theorems are about the model",
+               "norms_real only: the four standard-library axioms of the classical real numbers"]
+UNPROVED = ["floating-point accuracy of the f64 norms and libm's powf inside norm_p (the theorems are over exact order/real arithmetic with powf as a parameter; the f64 instance is tied bit-for-bit / by tolerance and searched against mpmath)",
+            "history refinement (run_refines) covers the 18 checked editing operations; the raw (i,j) writes m[(i,j)]= / swap_elem (unchecked addressing, outside the claim) and /= scalar (own theorem mdiv_assign_scalar_spec) are tied and searched only",
             "operand non-mutation / owned=borrowed are run-time observations of the executor (a value model satisfies them vacuously)"]
 
 MANIFEST = dict(
-    text=("Theorems (all shapes, all entry values, all histories) about the flat row-major Gallina model of src/matrix: each operation "
-          "equals its textbook definition and a history refines the list-of-rows spec; the model is run against the implementation on "
-          "every shape 0..5 (0..8 thorough) of the product, every operation x every index on small shapes and random histories "
-          "(Rat vs Qc exact, f64/Complex bit-compared), and a list-of-rows reference searches for a failing input."),
-    note="f64 norms are tied and searched, not proved over R; operand non-mutation is observed at run time.",
-    technique="Coq proof over an abstract ring + model/implementation differential execution (vm_compute vs Rust executor)",
-    design="7 (C03)")
+    text=("43 Coq theorems, all shapes / all entry values / all histories, no ring law assumed, about the flat row-major Gallina model of "
+          "src/matrix: one refinement theorem per operation (result is Ok - i.e. no index leaves the buffer -, wf and shape preserved, every "
+          "entry equals its textbook definition; Panic Guard exactly when the documented range/shape condition fails) for index/get/set row/col, "
+          "delete_row, resize, eye, all fills, swap, matrix*vector, + - neg scale div and the compound assignments, transpose_in_place (both "
+          "branches) and the product as written (get_col/multiply/set_col) for every conformable shape incl. wide, tall and empty; "
+          "step_refines/run_refines: every finite history of the 18 checked editing operations refines a list-of-rows specification; "
+          "norms = textbook definitions over any ordered arithmetic and over R; the legacy set_col is refuted on the committed witnesses. "
+          "The model is run against the implementation (Rat vs Qc exact, f64/Complex bitwise) on every product shape 0..5 (0..8 thorough), "
+          "every operation x every index on small shapes, every ordered pair of editing operations, random histories, with the derived "
+          "PartialEq against a rebuilt matrix after every step; a list-of-rows reference and mpmath search for a failing input."),
+    note="f64 rounding of the norms / libm powf is tied and searched, not proved; raw (i,j) writes and operand non-mutation are observed at run time only.",
+    technique="Coq proof (loop invariants over a representation predicate; no axioms except the stdlib reals for norms_real) + model/implementation differential execution (vm_compute vs Rust executor) + reference-model search",
+    design="7 (C03), Appendix E")
 
 def val(rng, elt):
     if elt == 'rat':
